@@ -84,7 +84,9 @@ def run(tier, replay=None):
     cov["impl_direct_failures"] = len(impl_fail)
     cov["samples"] = [l for l in lines if l.startswith(("OFF 3,4,2", "SLICE 3,2", "RESHAPE 4,3 |", "GATHER 3,2", "INTEGRAL 2,3"))][:8] or lines[:5]
     cov["exhaustive"] = True
-    cov["unproved_clauses_searched"] = ["owning/mapping/constant storage conversions keep contents (implementation-side check only)"]
+    cov["unproved_clauses_searched"] = ["storage conversions: the heap model of C16_StorageDefs.v is tied by replaying the STO scripts "
+                                        "(self-aliasing owning := view, constructor, view := storage on disjoint ranges); that Eigen's "
+                                        "resize frees the old buffer is the model's assumption (ASan shows a use-after-free otherwise)"]
     cov["excluded_inputs"] = ["reshape with a -1 whose remaining product is 0 (integer division by zero in treshape; outside the guard of C16_reshape_infer)"]
     r.assumptions = ["assertions are compiled out (NDEBUG) as in the library build; only valid accesses are explored",
                      "ASan/UBSan detect out-of-bounds touches of the explored accesses"]
